@@ -21,13 +21,14 @@ TEXT = {
  "C16": ("Lean theorems: per-call gate iff (list empty or contains the operation) for all lists and all seven operations, evaluated on the key_ops held at call time (narrowing takes effect); construction refuses any operation outside the family's whitelist "
          "(whitelists regenerated from the CheckKey skeletons); derived public keys carry only public-side operations; representations Ops/[]int/[]any agree. Malformed key_ops: counter-example proved, replayed, listed as known finding",
          "known finding D9 (uninterpretable key_ops lift the restriction)", T, "7.16"),
- "C17": ("Lean theorems: the registry regenerated from register.go is exactly the 28 registrations of 24 algorithms without duplicates; dispatch depends only on (kty, alg, crv); defaults when alg is absent; nil / unregistered fail; "
+ "C17": ("Lean theorems: a key with distinct in-range labels and scalar / list members survives its CBOR form (decoding succeeds; same kty, alg, dispatch triple, registered implementation per kind, key_ops, and octets of every byte-string member); the registry regenerated from register.go is exactly the 28 registrations of 24 algorithms without duplicates; dispatch depends only on (kty, alg, crv); defaults when alg is absent; nil / unregistered fail; "
          "accessors are insensitive to the Go integer kinds and slice types a decoder produces; the implementation obtained has the tag / nonce sizes of the key's algorithm; key-id look-up is exact. Correspondence on key.info / key.factory / impl.* / sig.*",
          "JSON/text forms wrap the same CBOR bytes in hex; exercised through the CBOR path", T, "7.17"),
  "C01": ("Lean theorems: for all six kinds MarshalCBOR's output is decoded back to the same wire array (tag/prefix stripping proved); protected, payload/ciphertext and signature/tag come back byte for byte; "
-         "a COSE_Sign1 / COSE_Mac0 produced with default headers verifies under any verifier correct for the signer and yields the original payload, for every payload, external data, key and unprotected map. "
+         "a COSE_Sign1 / COSE_Mac0 produced with default headers verifies under any verifier correct for the signer and yields the original payload, for every payload, external data, key and every unprotected map "
+         "with scalar / list values in whatever order Go presents its entries (the decoded unprotected map answers every look-up with the decoded form of the original value). "
          "The model is tied to the library by byte-exact produce + consume correspondence over 6 kinds x 24 algorithms x 3 tag forms",
-         "signature correctness assumed (cross-checked by Lean ECDSA/Ed25519); general header maps, typed payloads, Sign/Mac/Encrypt with recipients by correspondence only", T, "7.1"),
+         "signature correctness assumed (cross-checked by Lean ECDSA/Ed25519); caller-supplied protected maps, nested-map header values, typed payloads, Sign/Mac/Encrypt with recipients by correspondence only", T, "7.1"),
  "C02": ("Lean theorems: verification soundness (success implies the primitive accepted exactly the RFC 9052 structure of the received protected/payload bytes and caller's external data), injectivity of the structure "
          "(tampering = forgery), kind change changes the bytes, zero signatures / unmatched kid / any failing signature reject; history freedom over regenerated footprints (UnmarshalCBOR overwrites every field Verify reads, Verify recomputes the to-be-signed bytes and writes nothing else). Executable model with Lean primitives predicts the verdict of every mutated message in the run",
          "unforgeability of the primitives assumed", T, "7.2"),
@@ -44,8 +45,9 @@ TEXT = {
          "never panics (the >= guard keeps the slice in range); random nonce is published in header 5; each encryption consumes its own block of the random stream; GetRandomBytes is make + crypto/rand.Read with no package state (regenerated). Recording Encryptor correspondence, sequences on one key object (seq) and histories of 10^4..10^6 library-chosen nonces per algorithm (msg.noncehistory)",
          "crypto/rand quality not a theorem", T, "7.6"),
  "C09": ("Lean theorems: re-encoding a decoded COSE_Sign1/COSE_Mac0 preserves protected, payload and signature/tag bytes, hence the verdict; COSE_Signature re-encodes its received bucket verbatim; RemoveCBORTag removes only the tag; "
-         "prefix bytes and tag numbers regenerated from the source. Chains decode->encode->decode->verify on library-produced and foreign messages by correspondence",
-         "value round trips of maps/recipients/KDF contexts by correspondence", T, "7.9"),
+         "prefix bytes and tag numbers regenerated from the source; label maps (keys, header maps, claim maps with scalar / list values, any entry order) decode from their encoding with every typed accessor answering as before. "
+         "Chains decode->encode->decode->verify on library-produced and foreign messages by correspondence",
+         "value round trips of maps with nested maps, recipients, KDF contexts, Claims structs by correspondence", T, "7.9"),
  "C08": ("Lean theorems about the CBOR model for values of any size and depth: decode(encode v ++ r) = (v, r) (hence injective, prefix-free, accepted back), "
          "encoding independent of map entry order and of Go integer kind, shortest heads, sorted keys; decoder rejects indefinite lengths, duplicate keys "
          "(by value) at any depth, trailing bytes, out-of-range / ill-typed labels. Encoder/decoder options regenerated from key/cbor.go. "
